@@ -48,6 +48,11 @@ OKRULE = "table(sub) cA > cB; endtable;\n"
 DEEP_LIST = H + "table(glyph) cB = glyphid(7); cA = glyphid(3) {" + "; ".join("q%d = %d" % (i, i % 100) for i in range(70000)) + "}; endtable;\ntable(sub) cA > cB; endtable;\n"
 
 CORPUS = [
+    ("circular-class-qualified-attr", H + "table(glyph) cA = glyphid(5) {u = cA.u + 1}; cB = glyphid(7); endtable;\ntable(sub) cA > cB; endtable;\n", None, {}),
+    ("circular-class-qualified-attr-2", H + "table(glyph) cA = glyphid(5) {u = cA.v; v = u + 1}; cB = glyphid(7); endtable;\ntable(sub) cA > cB; endtable;\n", None, {}),
+    # feature tests around whole passes with a Silf version that cannot store pass constraints (they are moved into the rules)
+    ("pass-constraints-v2", fuzz11.SEEDS["passif"], ["-q", "-v2", "p.gdl", "in.ttf", "out.ttf"], {}),
+    ("pass-constraints-v3-c", fuzz11.SEEDS["passif"], ["-q", "-v3", "-p", "p.gdl", "in.ttf", "out.ttf"], {}),
     ("gdlpp-intmin-div-minus-one", H + "#if (-2147483647 - 1) / -1\n#endif\n#if (-2147483647 - 1) % -1\n#endif\n" + G + OKRULE, None, {}),
     # one attribute list of 70,000 assignments: the list rule of the grammar is right-recursive (known finding)
     ("deep-attr-list", DEEP_LIST, None, {"known_stack_overflow": "C11:stack-overflow-in-the-right-recursive-list-rules-of-the-parser", "recursion": "attrItemList"}),
